@@ -7,3 +7,6 @@ import BalmProofs.Props.C05
 #print axioms Balm.Impl.mem_ownAttrs
 #print axioms Balm.Impl.exclusion_sound
 #print axioms Balm.Impl.ordBelow_own
+#print axioms Balm.Impl.symbolicSeeds_spec
+#print axioms Balm.Impl.nodeSeeds_spec
+#print axioms Balm.Impl.reaches_attr
